@@ -962,6 +962,104 @@ def poly_sign(a):
     return c.sign_real()
 
 
+ATOM_ARGS = {}             # opaque atom -> (function, arguments) for abs / max / min atoms (read by homogeneity_degree)
+
+
+def homogeneity_degree(v, scaled, unit=()):
+    """Degree d with v(t*x) = t^d * v(x) for all t > 0 when the symbols in `scaled` are multiplied by t and the atoms in
+    `unit` (and constants) stay; 'mixed' when v is not homogeneous in that sense (max(|x|, 1), x + 1); None when an atom
+    of unknown behaviour occurs."""
+    from .algebra import Poly, Rat
+    if isinstance(v, Rat):
+        n, d = homogeneity_degree(v.n, scaled, unit), homogeneity_degree(v.d, scaled, unit)
+        if n is None or d is None:
+            return None
+        if 'mixed' in (n, d):
+            return 'mixed'
+        return n - d
+    if concrete_real(v) is not None or isinstance(v, (int, Fr, complex, float)):
+        return 0
+    if not isinstance(v, Poly):
+        return None
+    degs = set()
+    for mono, coef in v.t.items():
+        tot = 0
+        for atom, e in mono:
+            if atom in scaled:
+                d = 1
+            elif atom in unit:
+                d = 0
+            elif atom in ATOM_ARGS:
+                ds = [homogeneity_degree(x, scaled, unit) for x in ATOM_ARGS[atom][1]]
+                if any(x is None for x in ds):
+                    return None
+                if 'mixed' in ds or len(set(ds)) != 1:
+                    return 'mixed'
+                d = ds[0]
+            else:
+                return None
+            tot += d * e
+        degs.add(tot)
+    if len(degs) > 1:
+        return 'mixed'
+    return degs.pop() if degs else 0
+
+
+def _replace_even(v, name, arg):
+    """atom^(2k) -> arg^(2k) in a Poly / Rat; None when an odd power of the atom occurs."""
+    from .algebra import Z8, Poly, Rat
+    if isinstance(v, Rat):
+        n, d = _replace_even(v.n, name, arg), _replace_even(v.d, name, arg)
+        return None if n is None or d is None else n / d
+    if not isinstance(v, Poly):
+        return v
+    out = Poly.const(0)
+    for m, c in v.t.items():
+        term = Poly.const(c)
+        for s_, e in m:
+            if s_ == name:
+                if e.denominator != 1 or e.numerator % 2:
+                    return None
+                term = term * (arg * arg) ** (e.numerator // 2)
+            else:
+                term = term * Poly({((s_, e),): Z8.ONE})
+        out = out + term
+    return out
+
+
+def _square_without_abs(v):
+    """v * v with every abs atom of a real argument replaced by its argument (|p|^2 = p^2); None if v is not of that kind."""
+    from .algebra import AlgebraError, Poly
+    try:
+        sq = v * v
+        names = [a_ for a_ in sq.atoms() if a_ in ATOM_ARGS and ATOM_ARGS[a_][0] == 'abs']
+        for name in names:
+            arg = ATOM_ARGS[name][1][0]
+            if isinstance(arg, Poly) and not arg.is_real():
+                return None
+            # only even powers of the atom may occur in the square of a product of magnitudes
+            sq = _replace_even(sq, name, arg)
+            if sq is None:
+                return None
+        if any(a_ in ATOM_ARGS for a_ in sq.atoms()):
+            return None
+        return sq
+    except (AlgebraError, TypeError, AttributeError):
+        return None
+
+
+def same_magnitude(a, b):
+    """Two ways of writing one non-negative quantity: identical, or equal squares once |p|^2 is read as p^2."""
+    from .algebra import alg_equal, AlgebraError
+    try:
+        if repr(a) == repr(b) or alg_equal(a, b):
+            return True
+        sa, sb = _square_without_abs(a), _square_without_abs(b)
+        return sa is not None and sb is not None and alg_equal(sa, sb)
+    except (AlgebraError, TypeError):
+        return False
+
+
 def s_abs(a):
     from .algebra import Poly, Rat
     if isinstance(a, Choice):
@@ -975,7 +1073,9 @@ def s_abs(a):
     if hasattr(a, 'abs_'):
         return a.abs_()
     if isinstance(a, (Poly, Rat)):
-        return Poly.sym('abs(%r)' % (a,))
+        name = 'abs(%r)' % (a,)
+        ATOM_ARGS[name] = ('abs', (a,))
+        return Poly.sym(name)
     if isinstance(a, Unk):
         return a
     raise AnalysisError('abs of %r' % (a,))
